@@ -177,4 +177,17 @@ theorem C09_range_serves_what_heights_serve (r : Repo) (start : Int) (max n : Na
     cases hx
   · omega
 
+/-- **C09 (the addressing the model uses is the addressing in the source).** Regenerated from /repo on every
+    run: `header(height)`, `Hash(height)` and `GetHeaders` all read main file `height / headersPerFile` at offset
+    `height − file·headersPerFile` of the CURRENT height (not of the start height), the range loop walks
+    `startHeight … tipHeight` by one, and its only maximum test is `len(result) == maxCount` after an append. -/
+theorem C09_range_addressing_in_source :
+    Facts.getHeadersFileExpr = "height / headersPerFile" ∧
+    Facts.getHeadersOffsetExpr = "height - (headersFile * headersPerFile)" ∧
+    Facts.getHeadersLoop = "height := startHeight; height <= tipHeight; height++" ∧
+    Facts.getHeadersStopTests = "len(result) == maxCount|len(result) == maxCount" ∧
+    Facts.headerFileExpr = "height / headersPerFile" ∧ Facts.headerOffsetExpr = "height - (file * headersPerFile)" ∧
+    Facts.hashFileExpr = "height / headersPerFile" ∧ Facts.hashOffsetExpr = "height - (file * headersPerFile)" := by
+  decide
+
 end BRV.Repo
